@@ -3,9 +3,9 @@
 P=$1; shift
 cd /repo || exit 2
 if ! git diff --quiet; then echo "/repo dirty"; exit 2; fi
-git apply "$P" || git apply -3 "$P" || { echo "patch does not apply"; git checkout -- .; exit 2; }
+git apply "$P" || git apply -3 "$P" || { echo "patch does not apply"; git checkout HEAD -- .; exit 2; }
 for id in "$@"; do
   echo "=== $id"
   (cd /verif && VERIF_NOSAVE=1 timeout 1200 ./check $id ${TIER:-quick} 2>&1 | grep -v "rapid\] draw" | grep -E "VIOLATION|violated|KNOWN|INCONCLUSIVE|quick:|thorough:" | cut -c1-300 | head -8)
 done
-git checkout -- . ; git status --short | head -3
+git checkout HEAD -- . ; git status --short | head -3
